@@ -168,6 +168,23 @@ impl Params {
         }
         p
     }
+    /// the documented default configuration of this kind (multiplier compared bitwise)
+    pub fn is_default(&self) -> bool {
+        let d = self.kind.default_params();
+        self.p == d.p && self.k.to_bits() == d.k.to_bits() && !matches!(self.kind, Kind::Tr | Kind::Obv)
+    }
+    /// parameters for the receiver of a `clone_from`: the same periods, smaller ones or larger ones, in
+    /// turn (mode % 3 = 0, 1, 2)
+    pub fn receiver_variant(&self, mode: usize) -> Params {
+        let mut rp = *self;
+        if mode % 3 != 0 && self.kind.n_periods() > 0 {
+            for q in rp.p.iter_mut().take(self.kind.n_periods()) {
+                let c = (*q).min(1 << 16);
+                *q = if mode % 3 == 1 { c / 2 + 1 } else { 2 * c + 3 };
+            }
+        }
+        rp
+    }
     pub fn with_k(mut self, k: f64) -> Params {
         self.k = k;
         self
@@ -804,7 +821,24 @@ pub enum NewError {
 
 impl Inst {
     /// constructor call observed at the client boundary
+    /// An instance with the documented default parameters is obtained through `Default::default()`:
+    /// the crate documents the two as the same thing (C11 compares them, through `try_new_explicit`), so
+    /// every monitor that happens to run the default configuration also monitors default-constructed
+    /// instances.
     pub fn try_new(p: &Params) -> Result<Inst, NewError> {
+        if p.is_default() {
+            return match Inst::new_default(p.kind) {
+                Ok(i) => Ok(i),
+                Err(Panicked(m)) => {
+                    TOTAL_PANICS.fetch_add(1, Ordering::Relaxed);
+                    Err(NewError::Panic(m))
+                }
+            };
+        }
+        Inst::try_new_explicit(p)
+    }
+    /// always through `new(..)`
+    pub fn try_new_explicit(p: &Params) -> Result<Inst, NewError> {
         TOTAL_INSTANCES.fetch_add(1, Ordering::Relaxed);
         match guarded(|| construct_raw(p)) {
             Ok(Ok(ind)) => Ok(Inst { params: *p, ind, calls: 1, panics: 0, trace: None }),
@@ -1097,7 +1131,10 @@ impl Inst {
         let s = src.ind.as_ref();
         let me = self.ind.as_mut();
         match guarded(|| me.assign_from(s)) {
-            Ok(true) => Ok(()),
+            Ok(true) => {
+                self.params = src.params;
+                Ok(())
+            }
             Ok(false) => Err(Panicked("clone_from between different indicator types".into())),
             Err(p) => {
                 self.panics += 1;
@@ -1110,18 +1147,15 @@ impl Inst {
     pub fn clone_from_swap(&mut self) -> Result<(), Panicked> {
         self.calls += 1;
         let params = self.params;
+        let calls = self.calls;
         let src = self.ind.as_ref();
         let r = guarded(|| {
-            // every other time the receiver was built with *different* periods (clone_from must resize)
-            let mut rp = params;
-            if params.max_period() % 2 == 0 && params.kind.n_periods() > 0 {
-                for q in rp.p.iter_mut().take(params.kind.n_periods()) {
-                    *q = (*q).min(1 << 20) / 2 + 3;
-                }
-            }
+            // the receiver was built with the same periods, with smaller ones or with larger ones, in turn
+            // (clone_from must then shrink or grow whatever it reuses), and has wrapped its own window
+            let rp = params.receiver_variant(calls as usize);
             let mut other = construct_raw(&rp).ok()?;
             // give the receiver a history of its own first
-            for i in 0..(params.max_period().min(24) + 3) {
+            for i in 0..(rp.max_period().min(140) + 3) {
                 let v = 31.0 + ((i * 7) % 11) as f64;
                 if params.kind.has_scalar() {
                     let _ = other.next_f64(v);
